@@ -26,7 +26,7 @@ def _bcrow_jobs(tier):
     return [(c, (), tier) for c in MESH_CLASSES]
 
 
-PROTOCOL = dict(module='c09', rules={'P1', 'P2', 'P3', 'P4', 'P4e', 'P5', 'P9', 'P8u'}, jobs=_protocol_jobs, global_rules=True,
+PROTOCOL = dict(module='c09', rules={'P1', 'P2', 'P3', 'P4', 'P4e', 'P5', 'P9', 'P8u', 'P10'}, jobs=_protocol_jobs, global_rules=True,
                 why="no stale state: every edit of the alphabet raises a dirty flag, solvePDE / solveExplicitPDE / apply_BCs refresh the cached "
                     "boundary system and the ghost layer before use")
 SOLVE = dict(module='c04', rules={'S1', 'S2', 'S3', 'S4', 'S5', 'S6', 'S7', 'S8', 'S9'}, jobs=_solve_jobs, global_rules=False,
